@@ -18,9 +18,11 @@ const (
 	topic = "t"
 
 	// Transaction timeouts (virtual time). A's is the one the alphabet can
-	// let expire; B's is kfake's maximum so that it never expires by itself.
-	timeoutA = 60 * time.Second
-	timeoutB = 900 * time.Second
+	// let expire (it must outlast the sequential consumer reads of a whole
+	// history: 8 variants x ~1s per observed step); B's (= the broker's
+	// transaction.max.timeout.ms, raised for it) never expires by itself.
+	timeoutA = 5 * time.Minute
+	timeoutB = 2 * time.Hour
 
 	// A consumer is considered to have read everything it is going to read
 	// when a poll returned nothing for pollIdle of virtual time (the broker
@@ -618,6 +620,7 @@ func runHistory(t *testing.T, hist []sym, checkFrom int, vars []variant, verbose
 			kfake.Ports(9092),
 			kfake.SeedTopics(1, topic),
 			kfake.ListenFn(vnet.Listen),
+			kfake.BrokerConfigs(map[string]string{"transaction.max.timeout.ms": fmt.Sprint(timeoutB.Milliseconds())}),
 		)
 		if err != nil {
 			infra = fmt.Errorf("NewCluster: %w", err)
